@@ -158,10 +158,14 @@ type etcdBackend struct {
 	path  string
 	owner map[int64]int // lease id -> registrant whose registration created it
 	watch bool          // watcher mode (path = selfmon.ActiveKey)
+	mode  string        // "R" (selfmon.run) / "S" (calcium.RegisterService), see clients_test.go
 }
 
 func (e *etcdBackend) name() string { return "etcd" }
 func (e *etcdBackend) coq() string {
+	if e.mode != "" {
+		return "BEtcd" + e.mode
+	}
 	if e.watch {
 		return "BEtcdW"
 	}
@@ -237,10 +241,14 @@ type redisBackend struct {
 	path  string
 	beat  time.Duration
 	watch bool
+	mode  string
 }
 
 func (q *redisBackend) name() string { return "redis" }
 func (q *redisBackend) coq() string {
+	if q.mode != "" {
+		return "BRedis" + q.mode
+	}
 	if q.watch {
 		return "BRedisW"
 	}
@@ -356,7 +364,8 @@ type registrant struct {
 
 type spec struct {
 	b      string
-	watch  bool // watcher mode: selfmon.withActiveLock instead of StartEphemeral
+	watch  bool   // watcher mode: selfmon.withActiveLock instead of StartEphemeral
+	mode   string // "R": selfmon.run, "S": calcium.RegisterService (clients_test.go)
 	n      int
 	fixed  []mop // corpus: the operations; nil = random
 	seed   int64 // random: private generator seed, drawn from r.Rng
@@ -369,6 +378,9 @@ type outcome struct {
 	ops   []mop
 	obs   []observation
 	notes []string
+	// non-empty: the timing of the run could not be validated (an expected
+	// registration attempt did not show up within its limit): never emitted
+	invalid string
 }
 
 func runSchedule(sp spec, b backend) outcome {
@@ -570,6 +582,14 @@ func lapseWhileRegistered(ops []mop) bool {
 	return flag
 }
 
+// lane: an embedded cluster with the schedules that use it
+type lane struct {
+	t     *testing.T
+	merc  *etcdv3.Mercury
+	cli   *clientv3.Client
+	joins sync.WaitGroup // lazy joins of cancelled client loops (clients_test.go)
+}
+
 // ---- stall probe (etcd schedules) ----
 
 const stallLimit = 400 * time.Millisecond
@@ -664,13 +684,36 @@ func TestC26(t *testing.T) {
 		}
 	}
 
-	mk := func(idx int, sp spec) (backend, error) {
+	// client modes R (selfmon.run) and S (calcium.RegisterService): corpus, then random
+	nClient := r.N(2, 20)
+	for _, mode := range []string{"R", "S"} {
+		for _, b := range []string{"etcd", "redis"} {
+			for _, ops := range clientCorpus() {
+				specs = append(specs, spec{b: b, mode: mode, n: 2, fixed: ops})
+			}
+		}
+		for k := 0; k < nClient; k++ {
+			for _, b := range []string{"etcd", "redis"} {
+				specs = append(specs, spec{b: b, mode: mode, n: 2 + r.Rng.Intn(2), seed: r.Rng.Int63(), length: 6 + r.Rng.Intn(4)})
+			}
+		}
+	}
+
+	// the etcd schedules on a fixed key run one at a time: selfmon.ActiveKey is used
+	// by the watcher mode and by mode R (one chain), the service key by mode S
+	// (another chain).  (A second embedded cluster is not possible: the etcd
+	// integration framework allows one test context per process.)
+	main := &lane{t: t, merc: merc, cli: cli}
+	mk := func(ln *lane, idx int, sp spec) (backend, error) {
 		if sp.b == "etcd" {
 			path := fmt.Sprintf("/eph/%d", idx)
-			if sp.watch {
-				path = selfmon.ActiveKey // fixed: etcd watcher schedules run one at a time
+			switch {
+			case sp.mode == "S":
+				path = serviceKey
+			case sp.watch || sp.mode == "R":
+				path = selfmon.ActiveKey // fixed: these schedules run one at a time
 			}
-			return &etcdBackend{m: merc, cli: cli, path: path, owner: map[int64]int{}, watch: sp.watch}, nil
+			return &etcdBackend{m: ln.merc, cli: ln.cli, path: path, owner: map[int64]int{}, watch: sp.watch, mode: sp.mode}, nil
 		}
 		srv, err := miniredis.Run()
 		if err != nil {
@@ -683,6 +726,13 @@ func TestC26(t *testing.T) {
 			srv.Close()
 			return nil, err
 		}
+		if sp.mode != "" {
+			path := selfmon.ActiveKey
+			if sp.mode == "S" {
+				path = serviceKey
+			}
+			return &redisBackend{srv: srv, r: rd, path: path, beat: time.Second, mode: sp.mode}, nil
+		}
 		if sp.watch {
 			// 1 s only: with a heartbeat whose refresh ttl differs from it, the ttl
 			// read after a slow watcher operation (a cancelled wait takes up to 1 s)
@@ -692,37 +742,51 @@ func TestC26(t *testing.T) {
 		return &redisBackend{srv: srv, r: rd, path: fmt.Sprintf("/eph/%d", idx), beat: redisHeartbeats[idx%len(redisHeartbeats)]}, nil
 	}
 
-	var repeated, emittedStalled int64
+	var repeated, emittedStalled, repeatedInvalid, droppedInvalid int64
 	dropRun := make([]bool, len(specs))
 	outs := make([]outcome, len(specs))
 	errs := make([]error, len(specs))
 	sem := make(chan struct{}, 8)
 	var wg sync.WaitGroup
-	runOne := func(idx int, sp spec) {
+	runOne := func(ln *lane, idx int, sp spec) {
 		// etcd schedules depend on real time (1 s leases kept alive by 100 ms
 		// tickers): a stall of the machine / the embedded server lets a lease
 		// expire by itself, which the schedule did not ask for.  A probe that is
 		// independent of the code under test measures the largest stall; a
 		// stalled run is repeated (at most twice) on a fresh key, then emitted anyway.
 		for attempt := 0; ; attempt++ {
-			b, err := mk(idx*8+attempt, sp)
+			b, err := mk(ln, idx*8+attempt, sp)
 			if err != nil {
 				errs[idx] = err
 				return
 			}
 			var probe *stallProbe
 			if sp.b == "etcd" {
-				probe = startProbe(cli)
+				probe = startProbe(ln.cli)
 			}
-			if sp.watch {
+			switch {
+			case sp.mode != "":
+				outs[idx] = runClientSchedule(ln.t, &ln.joins, sp, b)
+			case sp.watch:
 				outs[idx] = runWatcherSchedule(sp, b)
-			} else {
+			default:
 				outs[idx] = runSchedule(sp, b)
 			}
-			if probe == nil {
-				return
+			var stall time.Duration
+			if probe != nil {
+				stall = probe.stop()
 			}
-			stall := probe.stop()
+			if outs[idx].invalid != "" && stall < stallLimit {
+				// an expected registration attempt did not show up in time: the run
+				// is not validated; repeated, then dropped and counted, never emitted
+				if attempt >= 2 {
+					atomic.AddInt64(&droppedInvalid, 1)
+					dropRun[idx] = true
+					return
+				}
+				atomic.AddInt64(&repeatedInvalid, 1)
+				continue
+			}
 			if stall < stallLimit {
 				return
 			}
@@ -736,34 +800,62 @@ func TestC26(t *testing.T) {
 	}
 	// the etcd watcher schedules share one key: one goroutine runs them one after
 	// the other, in parallel with everything else
+	serial := func(sp spec) string { // the lane of a schedule that must not overlap with its like
+		switch {
+		case sp.b != "etcd":
+			return ""
+		case sp.watch || sp.mode == "R":
+			return "A" // selfmon.ActiveKey
+		}
+		return sp.mode
+	}
+	chain := func(ln *lane, which string) {
+		for idx, sp := range specs {
+			if serial(sp) == which {
+				runOne(ln, idx, sp)
+			}
+		}
+	}
+	for _, which := range []string{"A", "S"} {
+		wg.Add(1)
+		go func(which string) {
+			defer wg.Done()
+			chain(main, which)
+		}(which)
+	}
 	wg.Add(1)
 	go func() {
 		defer wg.Done()
 		for idx, sp := range specs {
-			if sp.watch && sp.b == "etcd" {
-				runOne(idx, sp)
+			if serial(sp) != "" {
+				continue
 			}
+			wg.Add(1)
+			sem <- struct{}{}
+			go func(idx int, sp spec) {
+				defer wg.Done()
+				defer func() { <-sem }()
+				runOne(main, idx, sp)
+			}(idx, sp)
 		}
 	}()
-	for idx, sp := range specs {
-		if sp.watch && sp.b == "etcd" {
-			continue
-		}
-		wg.Add(1)
-		sem <- struct{}{}
-		go func(idx int, sp spec) {
-			defer wg.Done()
-			defer func() { <-sem }()
-			runOne(idx, sp)
-		}(idx, sp)
-	}
 	wg.Wait()
+	main.joins.Wait()
 
 	for k := int64(0); k < repeated; k++ {
 		r.Count("etcd_schedules_repeated_after_stall")
 	}
 	for k := int64(0); k < emittedStalled; k++ {
 		r.Count("etcd_schedules_dropped_stalled")
+	}
+	for k := int64(0); k < repeatedInvalid; k++ {
+		r.Count("schedules_repeated_unvalidated")
+	}
+	for k := int64(0); k < droppedInvalid; k++ {
+		r.Count("schedules_dropped_unvalidated")
+	}
+	for k := int64(0); k < atomic.LoadInt64(&notReturned); k++ {
+		r.Count("client_loops_not_returned_after_cancel")
 	}
 	if emittedStalled*2 > int64(len(specs)) {
 		t.Fatalf("more than half of the schedules were dropped because the embedded cluster stalled")
@@ -792,7 +884,12 @@ func TestC26(t *testing.T) {
 			}
 		}
 		lwr, client := lapseWhileRegistered(o.ops), "direct"
-		if specs[idx].watch {
+		switch {
+		case specs[idx].mode == "R":
+			lwr, client = lapseWhileRegisteredC("R", o.ops), "selfmon.run"
+		case specs[idx].mode == "S":
+			lwr, client = lapseWhileRegisteredC("S", o.ops), "RegisterService"
+		case specs[idx].watch:
 			lwr, client = lapseWhileRegisteredW(o.ops), "selfmon"
 		}
 		r.Count("backend=" + o.b.name())
@@ -808,5 +905,5 @@ func TestC26(t *testing.T) {
 		tags := map[string]any{"backend": o.b.name(), "client": client, "lapse_while_registered": lwr}
 		r.Add(term, desc, tags, lwr || exists)
 	}
-	r.Finish("per backend (real StartEphemeral on embedded etcd with heartbeat 300 ms / miniredis with heartbeats 300 ms / 1 s / 1.2 s by schedule index; an etcd schedule during which an independent probe saw a stall >= 400 ms is repeated up to three times, then dropped): a corpus of 4 schedules (register-tick-stop; a rejected second registrant that registers after the first stopped; the redis witness lapse-takeover-stop; lapse with nobody taking over), then adaptive random schedules of 8-15 macro operations over 2 or 3 registrants (MReg 35%, MTickAll 30%, MLapse 15%, MStop 20% among the operations legal in the harness view), closed by a Stop of every still-active registrant; non-trivial = a lapse while somebody is registered, or a registration rejected with ErrKeyExists. Watcher mode (client=selfmon): the same operations drive selfmon.withActiveLock through the verif hook (MReg = start a watcher, pending when its first attempt is rejected, at most one pending; MTickAll also waits for the pending watcher's next retry; MStop = cancel the watcher's context), etcd heartbeat 300 ms on the fixed key one schedule at a time, redis heartbeat 1 s: a corpus of 3 schedules per backend (start-tick-stop; a waiting watcher that takes over after a lapse; a watcher cancelled while waiting), then adaptive random schedules of 6-10 operations")
+	r.Finish("per backend (real StartEphemeral on embedded etcd with heartbeat 300 ms / miniredis with heartbeats 300 ms / 1 s / 1.2 s by schedule index; an etcd schedule during which an independent probe saw a stall >= 400 ms is repeated up to three times, then dropped): a corpus of 4 schedules (register-tick-stop; a rejected second registrant that registers after the first stopped; the redis witness lapse-takeover-stop; lapse with nobody taking over), then adaptive random schedules of 8-15 macro operations over 2 or 3 registrants (MReg 35%, MTickAll 30%, MLapse 15%, MStop 20% among the operations legal in the harness view), closed by a Stop of every still-active registrant; non-trivial = a lapse while somebody is registered, or a registration rejected with ErrKeyExists. Watcher mode (client=selfmon): the same operations drive selfmon.withActiveLock through the verif hook (MReg = start a watcher, pending when its first attempt is rejected, at most one pending; MTickAll also waits for the pending watcher's next retry; MStop = cancel the watcher's context), etcd heartbeat 300 ms on the fixed key one schedule at a time, redis heartbeat 1 s: a corpus of 3 schedules per backend (start-tick-stop; a waiting watcher that takes over after a lapse; a watcher cancelled while waiting), then adaptive random schedules of 6-10 operations. Client modes R (client=selfmon.run: the restart loop selfmon.run, pause ConnectionTimeout 2.5 s) and S (client=RegisterService: one Calcium per registrant, same bind address hence one service key): every registration attempt and every expiry channel is observed through a delegating store proxy; the closed flag means 'does not believe it holds'; generator rules: at most one pending registrant, on etcd at most one lapsed registrant not yet notified, a free key with a pending registrant forces MTickAll, S on etcd: MLapse of a believer forces MTickAll, key-freeing operations aligned to the pending registrant's retries; per mode and backend a corpus of 3 schedules (start-tick-stop; a waiting registrant and a lapse; a lapse with nobody waiting), then adaptive random schedules of 6-9 operations; a run in which an expected registration attempt does not show up within its limit is repeated, then dropped and counted, never emitted")
 }
